@@ -218,7 +218,7 @@ class SimPool(cf.Executor):
             item["started"] = True
             pool.running += 1
             sim.tls.token = tok
-            sim.ev("start", tok, nid)
+            sim.ev("start", tok, nid, bool(item.get("queued")))
             if not f.set_running_or_notify_cancel():
                 pool.running -= 1
                 sim.ev("cancelled", tok, nid)
@@ -239,6 +239,7 @@ class SimPool(cf.Executor):
                 return True
             free = pool.max_workers - pool.running
             if free <= 0:
+                item["queued"] = True   # held back by the pool itself: every worker is busy
                 return False
             n = 0
             for it in pool.items:
